@@ -16,8 +16,9 @@ from .. import lib, qprog
 from ..lib import CheckResult
 from ..qprog import N
 
-KINDS = ["G", "R", "U", "P", "do", "meas", "apply", "raise", "ctx", "stop", "try"]
+KINDS = ["G", "R", "U", "E", "P", "do", "meas", "apply", "raise", "ctx", "stop", "try", "tape"]
 RANDOM_KINDS = KINDS + ["adjfn", "ctrlfn"]
+# every place-dependent choice (wrapper kind, eager kind, exponent, gate class, call form) cycles with the flavour
 
 
 def handcrafted():
@@ -31,7 +32,24 @@ def handcrafted():
     tr = lambda *b: N("try", [], [list(b)])
     ap = lambda r: N("apply", [r])
     rz, meas = N("raise"), lambda e: N("meas", [], [[e]])
+    E = lambda e: N("E", [], [[e]])
+    tape = lambda *b: N("tape", [], [list(b)])
+    m0 = N("meas")
     return [
+        # a QuantumTape rejected when it is built at exit (operator after a measurement), caught, recording goes on outside
+        [do(G), tr(tape(m0, do(G))), do(G), ap(1)],
+        [ctx(do(G), tr(tape(do(G), m0, do(U(R1)))), do(G)), do(G)],
+        [tape(tr(tape(m0, do(G))), do(G), m0)],
+        [tr(ctx(tape(m0, do(G)), do(G))), do(G)],
+        [tr(stop(tape(meas(G), do(G)), do(G))), do(G), ap(1)],
+        [tr(tape(tape(m0, do(G)), do(G))), do(G)],
+        [tr(tape(m0, rz)), tr(tape(m0, do(G), rz)), do(G)],
+        [tape(do(G), m0), tape(m0, meas(R1)), do(U(R1))],
+        # eager wrappers: the base leaves the queue, one result is recorded
+        [do(G), do(E(R1)), do(E(E(G))), do(U(E(R1)))],
+        [do(G), do(G), do(E(P(R1, R2))), ap(1)],
+        [stop(do(E(G))), do(E(R1)), ctx(do(E(R1)))],
+        [do(E(U(G))), do(E(U(U(G)))), meas(E(G))],
         # wrapper built where its operand is not in the active queue, then applied (under-determined outcome)
         [do(G), stop(do(U(R1))), ap(1)],
         [do(G), ctx(do(U(R1))), ap(1)],
@@ -60,11 +78,29 @@ def handcrafted():
     ]
 
 
+def eager_family():
+    """every eager form x exponent x gate class, on a fresh base, on a base recorded earlier, on a wrapped base"""
+    out = []
+    do = lambda e: N("do", [], [[e]])
+    for gi in range(5):
+        g = N("G", [gi])
+        forms = [(0, zi) for zi in range(len(qprog.ZS))] + [(1, 0), (2, 0), (3, 0)]
+        for k, zi in forms:
+            E = lambda e: N("E", [k, zi], [[e]])
+            out.append([do(E(g))])
+            out.append([do(g), N("ctx", [], [[do(g)]]), do(E(N("R", [1]))), do(g)])
+            out.append([do(g), N("ctx", [], [[do(E(N("R", [1]))), do(g)]])])
+            if gi < 2:
+                out.append([do(E(N("U", [], [[g]])))])
+                out.append([do(N("U", [], [[E(g)]])), N("apply", [1])])
+    return out
+
+
 def run(tier, seed):
     rng = random.Random(seed)
     quick = tier == "quick"
-    nrand, depth, budget = (2000, 3, 10) if quick else (50000, 4, 16)
-    extras = handcrafted()
+    nrand, depth, budget = (1200, 3, 10) if quick else (50000, 4, 16)
+    extras = handcrafted() + eager_family()
     for _ in range(nrand):
         extras.append(qprog.rand_prog(rng, RANDOM_KINDS, depth, rng.randint(4, budget)))
     kinds = "{" + ",".join(f'"{k}"' for k in KINDS) + "}"
@@ -72,10 +108,10 @@ def run(tier, seed):
         "C41", tier, seed,
         defs={"Kinds": kinds, "ForSpecs": "{}", "WhileSpecs": "{}", "CondPreds": "{}"},
         constants={"MaxSize": 3 if quick else 4, "MaxDepth": 2, "NFlav": 2 if quick else 4, "RangeB": 2},
-        extras=extras, trace_limit=1000 if quick else 5000,
+        extras=extras, trace_limit=700 if quick else 5000,
         what="nested contexts, stop_recording, operand consumed by a wrapper, apply, apply outside recording, raised exception")
     need = ["nested-contexts", "stop_recording", "operand-consumed", "apply", "apply-outside-recording", "exception",
-            "exception-through-context", "adjfn", "ctrlfn"]
+            "exception-through-context", "adjfn", "ctrlfn", "tape-context", "tape-rejected-at-exit", "eager-wrapper"]
     if not viol:
         missing = [f for f in need if feats[f] < 5]
         if missing or cov["programs_with_underdetermined_consumption"] < 3:
